@@ -143,17 +143,13 @@ def planCovered : List SendOut → Bool
   | .payloadExceeded :: [] | .payloadExceeded :: .ok :: _ => true
   | _ => false
 
-/-- the endpoint outcomes an ERROR can be built from -/
-def EOut.buildable : EOut → Bool
-  | .value _ _ => true
-  | .raised e => e.toError.isSome
-
 /-- **exactly one, when the closure runs**: once the endpoint's outcome is known its `success` / `error` closure runs
-(`invDone`; at once on Twisted, at the next loop iteration on asyncio); with the transport up, a covered `send()` plan and
-an outcome an ERROR can be built from, it sends exactly one terminal reply for the id — and the id leaves
-`_invocations`. -/
+(`invDone`; at once on Twisted, at the next loop iteration on asyncio); with the transport up and a covered `send()`
+plan it sends exactly one terminal reply for the id — and the id leaves `_invocations`. For EVERY outcome: a value, a
+`CallResult`, an exception of any class — also one `_message_from_exception` cannot turn into an ERROR (the closure then
+answers `wamp.error.invalid_payload`; before the repair nothing was sent: `error-path:encode-raises:no-reply`). -/
 theorem reply_sent_exactly_once (s : Sess) (req : ReqId) (o : EOut) (hin : (alookup req s.invs).isSome = true)
-    (ht : s.transport = true) (hplan : planCovered s.faults = true) (hb : o.buildable = true) :
+    (ht : s.transport = true) (hplan : planCovered s.faults = true) :
     terminals req (invDone s req o).2 = 1 ∧ owing req (invDone s req o).1 = 0 := by
   obtain ⟨x, hx⟩ := Option.isSome_iff_exists.mp hin
   have hnt : (!s.transport) = false := by simp [ht]
@@ -189,24 +185,26 @@ theorem reply_sent_exactly_once (s : Sess) (req : ReqId) (o : EOut) (hin : (aloo
     obtain ⟨k1, k2⟩ := key { typ := .yield_, req := req, args := a, kwargs := k } (by simp [isProg]) rfl
     exact ⟨k1, by simp [owing, k2]⟩
   | raised e =>
-    simp only [EOut.buildable] at hb
-    obtain ⟨⟨u, a, k⟩, he⟩ := Option.isSome_iff_exists.mp hb
-    simp only [he, hnt, Bool.false_eq_true, ↓reduceIte]
-    obtain ⟨k1, k2⟩ := key { typ := .error, req := req, uri := u, args := a, kwargs := k } (by simp) rfl
+    simp only [hnt, Bool.false_eq_true, ↓reduceIte]
+    obtain ⟨k1, k2⟩ := key { typ := .error, req := req, uri := e.errorReply.1, args := e.errorReply.2.1, kwargs := e.errorReply.2.2 } (by simp) rfl
     refine ⟨?_, by simp [owing, k2]⟩
     simpa [terminals, List.countP_cons, terminalFor] using k1
 
 /-- what the one reply is when `send()` accepts it: YIELD with the endpoint's return value (a `CallResult` unpacked, a
-plain value as the one positional result), or ERROR with the exception's URI / args / kwargs -/
+plain value as the one positional result), or ERROR with the exception's URI / args / kwargs — and, when no ERROR can be
+built from the exception, ERROR `wamp.error.invalid_payload` without the exception's payload -/
 theorem reply_content (s : Sess) (req : ReqId) (x : InvRec) (hx : alookup req s.invs = some x) (ht : s.transport = true)
     (hf : s.faults = []) :
     (∀ a k, (invDone s req (.value a k)).2 = [.send { typ := .yield_, req := req, args := a, kwargs := k }]) ∧
     (∀ e u a k, e.toError = some (u, a, k) →
-      (invDone s req (.raised e)).2 = [.userError, .send { typ := .error, req := req, uri := u, args := a, kwargs := k }]) := by
+      (invDone s req (.raised e)).2 = [.userError, .send { typ := .error, req := req, uri := u, args := a, kwargs := k }]) ∧
+    (∀ e, e.toError = none →
+      (invDone s req (.raised e)).2 = [.userError, .send { typ := .error, req := req, uri := uInvalidPayload }]) := by
   have hnt : (!s.transport) = false := by simp [ht]
-  constructor
+  refine ⟨?_, ?_, ?_⟩
   · intro a k; simp [invDone, hx, hnt, sendWithFallback, replySend, hf]
-  · intro e u a k he; simp [invDone, hx, hnt, he, sendWithFallback, replySend, hf]
+  · intro e u a k he; simp [invDone, hx, hnt, ExcK.errorReply, he, sendWithFallback, replySend, hf]
+  · intro e he; simp [invDone, hx, hnt, ExcK.errorReply, he, sendWithFallback, replySend, hf]
 
 example : retOut (.callResult [1, 2] [(3, 4)]) = .value [1, 2] [(3, 4)] ∧ retOut (.val 7) = .value [7] [] ∧
     retOut .unit = .value [noneVal] [] := ⟨rfl, rfl, rfl⟩
@@ -224,28 +222,28 @@ def OneTerminalReply : Prop :=
 def callee1 : List SEv :=
   [.open_ [], .msg (.welcome 7) [], .api (.register 1 4 (some { detailsArg := some 0 }) .ok), .msg (.registered 1 70) []]
 
-/-- it fails: `send()` raises a class the closures do not handle (ledger F14: the asyncio RawSocket used to raise
-ValueError for an oversize message; today: Twisted RawSocket raises the serializer's own exception for an unserializable
-result) — the endpoint is called, nothing is ever sent for the id -/
+/-- it fails for a transport outside the property's promise: `send()` raises a class the closures do not handle (what the
+asyncio RawSocket did for an oversize message — ledger F14 — and the Twisted RawSocket for an unserializable result, both
+repaired: `fallback_covers`; the mock transport still can) — the endpoint is called, nothing is ever sent for the id -/
 theorem one_terminal_reply_fails_send_raises_other : ¬ OneTerminalReply := by
   intro h
   have := h .sync (callee1 ++ [.fault [.other], .msg (.invocation 9 70 {} none) [{ ret := .val 1 }]]) 9
     (by intro e he acts hc; subst hc; simp [callee1] at he) (by decide)
   revert this; decide
 
-/-- … an oversize result: the fallback ERROR repeats the result in its message and is refused as well -/
+/-- … and for a transport that refuses the fallback ERROR as well (what every real transport did for an oversize result
+while the fallback repeated the result in its message — repaired; the mock transport still can) -/
 theorem one_terminal_reply_fails_fallback_refused : ¬ OneTerminalReply := by
   intro h
   have := h .sync (callee1 ++ [.fault [.payloadExceeded, .payloadExceeded], .msg (.invocation 9 70 {} none) [{ ret := .val 1 }]]) 9
     (by intro e he acts hc; subst hc; simp [callee1] at he) (by decide)
   revert this; decide
 
-/-- … and an exception the ERROR cannot be built from (`error-path:encode-raises:no-reply`) -/
-theorem one_terminal_reply_fails_unbuildable : ¬ OneTerminalReply := by
-  intro h
-  have := h .sync (callee1 ++ [.msg (.invocation 9 70 {} none) [{ raises := true, exc := .unbuildable }]]) 9
-    (by intro e he acts hc; subst hc; simp [callee1] at he) (by decide)
-  revert this; decide
+/-- regression (`error-path:encode-raises:no-reply`, repaired): an exception the ERROR cannot be built from is answered
+with `wamp.error.invalid_payload` — one endpoint call, one terminal reply -/
+example : runOuts (runState (init .sync) callee1) [.msg (.invocation 9 70 {} none) [{ raises := true, exc := .unbuildable }]] =
+    [.endpoint 9 0 1 [] [(0, .callDetails 0 false)], .userError, .send { typ := .error, req := 9, uri := uInvalidPayload }] := by
+  decide
 
 /-- non-vacuity of the accounting: three invocations (plain, failing with the fallback, interrupted while pending) get
 one terminal reply each; on asyncio the replies go out when the loop runs -/
@@ -295,7 +293,7 @@ theorem interrupt_yields_error (s : Sess) (sid : Nat) (hs : s.sessionId = some s
   constructor
   · intro hm
     simp [step, onMessage, hs, onEstablished, settleInv, hx, hp, defer, hm, runCont, invDone, alookup_aupd_self, ExcK.toError,
-      hnt, sendWithFallback, replySend, hf]
+      ExcK.errorReply, hnt, sendWithFallback, replySend, hf]
   · intro hm
     simp [step, onMessage, hs, onEstablished, settleInv, hx, hp, defer, hm]
 
@@ -319,12 +317,20 @@ unserializable and PayloadExceededError for an oversize reply -/
 def FallbackCovers (t : Transport) : Prop :=
   sendTable t .unserializable = .serialization ∧ sendTable t .oversize = .payloadExceeded
 
-/-- it does for WebSocket (both frameworks) and for the asyncio RawSocket (since the repair of F14) … -/
-theorem fallback_covers_partial : FallbackCovers .wsTwisted ∧ FallbackCovers .wsAsyncio ∧ FallbackCovers .rsAsyncio := by
-  refine ⟨?_, ?_, ?_⟩ <;> (unfold FallbackCovers; decide)
+/-- `fallback_covers`: it does for all four transports — WebSocket (both frameworks), the asyncio RawSocket (since the
+repair of F14) and the Twisted RawSocket (since its `send()` wraps whatever the serializer raises, like the others; before
+that repair `except SerializationError` let the serializer's own exception through and this theorem was false of the
+generated table) -/
+theorem fallback_covers : ∀ t : Transport, FallbackCovers t := by
+  intro t; cases t <;> (unfold FallbackCovers; decide)
 
-/-- … and not for the Twisted RawSocket: `except SerializationError` lets the serializer's own exception through -/
-theorem fallback_covers_fails_rsTwisted : ¬ FallbackCovers .rsTwisted := by
-  unfold FallbackCovers; decide
+/-- so on every real transport an unserializable or oversize result meets a covered plan as soon as the fallback ERROR —
+which no longer repeats the result — is accepted: with `reply_sent_exactly_once`, exactly one terminal reply -/
+theorem fallback_plan_covered (t : Transport) (c : Cause) (rest : List SendOut) :
+    planCovered (sendTable t c :: .ok :: rest) = true := by
+  have h := fallback_covers t
+  cases c
+  · rw [h.1]; rfl
+  · rw [h.2]; rfl
 
 end Abverif.Session
